@@ -126,8 +126,8 @@ CLAIMS = {
   "rule and the EXTRA_* constants re-extracted from the source on every run) - for every history of additions and deletions every write index lies inside the array as sized after the "
   "growth step (invariant by induction over the history); and the free-space accounting of the sparse column store: the guard delta < matfree of matrix_addrow keeps every write of its "
   "in-place branch inside the array (and delta <= matfree would not), matrix_addcol and the move branch of matrix_addcoef write inside the array; and the string pool of the "
-  "symbol table: add_string leaves its grow/compact loop with room for the string and its terminator whenever the live strings fit below strsize (that hypothesis is checked on every "
-  "state of the direct symbol-table sessions of C06). Tied to /repo: counts and capacities of "
+  "symbol table: add_string leaves its grow/compact loop with room for the string and its terminator whenever the live strings fit below strsize, and that invariant holds after every "
+  "history of registrations, deletions and renamings (symtab_pool_history; it is also checked on every state of the direct symbol-table sessions of C06). Tied to /repo: counts and capacities of "
   "the real object are compared with the Cap model after every call; the raw store arrays with the transliterated Store model (check C06), whose addrow steps are checked at run time "
   "against the accounting abstraction; histories are steered to the boundaries delta = matfree, matfree +- 1. NOT provable in a model and therefore observed, not proved: actual memory accesses, undefined behaviour, uninitialised reads and reproducibility are runtime "
   "behaviour; a battery of multi-object interleavings, solves with warm restarts / tableau calls / file round trips, long edit histories and mutated LP / MPS inputs runs on the "
